@@ -4,6 +4,7 @@ package main
 
 import (
 	"fmt"
+	"regexp"
 	"strings"
 
 	"golang.org/x/tools/go/ssa"
@@ -277,7 +278,10 @@ func runC10(w *World, c *Check) {
 					fa.PathAvoiding(after, []Exit{x}) == nil && fa.PathAvoiding(before, []Exit{x}) == nil && fa.PathAvoiding(found, []Exit{x}) == nil
 				c.Decide(ok, "C10.gate", fk, label, where, "the cached entry is returned only when now is after its StartTime and before its EndTime", "a path returns the cached entry as valid without both time tests")
 			case fullMatch(ren+`#0\.Ticket`, tk) && fullMatch(ren+`#0\.SessionKey`, key):
-				ok := len(renewable) > 0 && len(renewed) > 0 && fa.PathAvoiding(renewable, []Exit{x}) == nil && fa.PathAvoiding(renewed, []Exit{x}) == nil
+				// the validity handed back may be the test itself (…, err == nil)
+				okRenewed := fullMatch(`\((`+ren+`#1 == nil|nil == `+ren+`#1)\)`, fa.R.R(rs[2])) ||
+					(len(renewed) > 0 && fa.PathAvoiding(renewed, []Exit{x}) == nil)
+				ok := len(renewable) > 0 && okRenewed && fa.PathAvoiding(renewable, []Exit{x}) == nil
 				c.Decide(ok, "C10.gate", fk, label, where, "a renewed entry is returned only when renewal succeeded and was attempted before RenewTill", "a path returns the renewed entry as valid without the RenewTill test or with a renewal error")
 			default:
 				c.Fail("C10.gate", fk, label, where, "ticket and session key returned as valid belong to one cache entry (the looked-up one or the renewed one)", "returns "+trunc(tk, 100)+" with "+trunc(key, 100))
@@ -416,6 +420,10 @@ func runC10(w *World, c *Check) {
 			c.Decide(fa.M(`\(1 \+ referral\)|\(referral \+ 1\)`, last), "C10.referral", fk, "increments", where, "the recursive call passes referral + 1", "passes "+last)
 			ok := len(pass) > 0 && fa.PathToInstrAvoiding(pass, ci) == nil
 			c.Decide(ok, "C10.referral", fk, "bounded", where, "the recursive call is reached only when referral does not exceed a constant bound ("+bound+")", "recursive call reachable without the bound test")
+			// the step can be taken at all: what must hold on the way to it does not contradict
+			// what the reply validation it comes after insists on
+			why := contradictsValidation(fa, ci)
+			c.Decide(why == "", "C10.referral", fk, "followable", where, "the conditions under which a referral is followed are compatible with the checks every accepted reply has passed (a referral reply names another krbtgt than the one asked for)", why)
 		}
 	}
 
@@ -474,12 +482,9 @@ func runC10(w *World, c *Check) {
 	sfa, _ := checkCalls(w, c, "C10.preauth", "client.setPAData", []CallSpec{
 		{Name: "timestamp-usage-1", Desc: "the PA-ENC-TS-ENC is encrypted with the client key, key usage 1 and that key's kvno", Callee: `crypto\.GetEncryptedData`,
 			Want: `crypto\.GetEncryptedData\(types\.GetPAEncTSEncAsnMarshalled\(\)#0, (φ\(` + keyCall + `#0\|` + keyCall + `#0\)|` + keyCall + `#0), 1, (φ\(` + keyCall + `#1\|` + keyCall + `#1\)|` + keyCall + `#1)\)`},
-		{Name: "key-for-negotiated-etype", Desc: "after a KDC error the key is derived for the etype the KDC's hints select, with those hints", Callee: `client\.\(\*Client\)\.Key`,
-			Want: `client\.\(\*Client\)\.Key\(cl, client\.preAuthEType\(krberr\)#0, 0, krberr\)`},
-		{Name: "key-for-remembered-etype", Desc: "without a KDC error the key is for the remembered or configured etype", Callee: `client\.\(\*Client\)\.Key`,
-			Want: `client\.\(\*Client\)\.Key\(cl, crypto\.GetEtype\(φ\(.*\)\)#0, 0, nil\)`},
 	})
 	if sfa != nil {
+		rulePreauthKey(c, sfa)
 		// an existing PA-ENC-TIMESTAMP (type 2) is looked for before the new one is appended
 		rep := sfa.MatchGuard(EqPass("2", `.*\.PAData\[\$i\d\]\.PADataType`))
 		c.Decide(len(rep) > 0, "C10.preauth", FuncKey(sfa.Fn), "replaces-existing-timestamp", w.Pos(sfa.Fn.Pos()), "an existing PA-ENC-TIMESTAMP is removed so that a retry carries exactly one", "no loop testing PADataType == 2 over the request's PA-data")
@@ -626,4 +631,153 @@ func ruleBodyFinal(w *World, c *Check, rule string) {
 			}
 		}
 	}
+}
+
+// rulePreauthKey: which etype, and which hints, the pre-authentication key is derived with.
+// The rule is over the alternatives of the etype operand of each (*Client).Key call in setPAData,
+// wherever they are computed (in place, or in a helper introduced later): an alternative computed
+// only behind `krberr == nil` is available only when there is no KDC error (a use is dominated by
+// its definition), and likewise for `krberr != nil`.
+func rulePreauthKey(c *Check, sfa *FuncAn) {
+	w := sfa.W
+	fnKey := FuncKey(sfa.Fn)
+	kr := substParams(sfa.Fn, "krberr")
+	isParam := false
+	for _, p := range sfa.Fn.Params {
+		if sfa.R.R(p) == kr {
+			isParam = true
+		}
+	}
+	if !isParam {
+		c.Fail("C10.preauth", fnKey, "key-for-negotiated-etype", w.Pos(sfa.Fn.Pos()), "setPAData(cl, krberr, req)", "parameter list changed: the KDC error operand cannot be identified")
+		return
+	}
+	under1 := func(a *FuncAn, in ssa.Instruction, isNil bool) bool {
+		pass, _ := a.matchGuardsRaw([]rawPat{{regexp.QuoteMeta(kr), "nil", GuardPat{Kind: "eq", PassWhen: isNil}, true}}, 0)
+		return len(pass) > 0 && a.PathToInstrAvoiding(pass, in) == nil
+	}
+	// in a helper introduced later: also what dominates the helper's call in setPAData
+	under := func(a *FuncAn, in ssa.Instruction, isNil bool) bool {
+		return under1(a, in, isNil) || (a != sfa && a.Via != nil && under1(sfa, a.Via, isNil))
+	}
+	const wantA = `crypto\.GetEtype\(φ\(.*\)\)#0`
+	wantB := `client\.preAuthEType\(` + regexp.QuoteMeta(kr) + `\)#0`
+	var badA, badB []string
+	sawA, sawB := false, false
+	where := w.Pos(sfa.Fn.Pos())
+	for _, a := range sfa.withNewHelpers() {
+		for _, ci := range a.Calls(`client\.\(\*Client\)\.Key`) {
+			args := ci.Common().Args
+			if len(args) != 4 {
+				continue
+			}
+			where = w.Pos(InstrPos(ci))
+			hints := a.R.R(args[3])
+			callNil := under(a, ci, true)
+			callErr := under(a, ci, false)
+			if kv := a.R.R(args[2]); kv != "0" {
+				badA = append(badA, "kvno operand is "+kv)
+			}
+			switch {
+			case hints == kr:
+			case hints == "nil" && callNil:
+			default:
+				badB = append(badB, "the hints operand is "+hints+" on a path where a KDC error may be present")
+			}
+			for _, lv := range a.LeafValues(args[1]) {
+				t := lv.fa.R.R(lv.v)
+				in, _ := lv.v.(ssa.Instruction)
+				switch {
+				case in != nil && fullMatch(wantA, t):
+					sawA = true
+					if !(callNil || under(lv.fa, in, true)) {
+						badA = append(badA, "the remembered/configured etype "+trunc(t, 80)+" can reach the key derivation when a KDC error is present")
+					}
+				case in != nil && fullMatch(wantB, t):
+					sawB = true
+					if !(callErr || under(lv.fa, in, false)) {
+						badB = append(badB, "the hint-selected etype is computed although no KDC error is present")
+					}
+					if hints != kr {
+						badB = append(badB, "the hint-selected etype is used with hints "+hints)
+					}
+				default:
+					badA = append(badA, "the etype operand may be "+trunc(t, 100))
+				}
+			}
+		}
+	}
+	if !sawA {
+		badA = append(badA, "no key derivation for crypto.GetEtype(remembered or configured etype)")
+	}
+	if !sawB {
+		badB = append(badB, "no key derivation for preAuthEType(krberr)")
+	}
+	c.Decide(len(badB) == 0, "C10.preauth", fnKey, "key-for-negotiated-etype", where, "after a KDC error the key is derived for the etype the KDC's hints select, with those hints", strings.Join(badB, "; "))
+	c.Decide(len(badA) == 0, "C10.preauth", fnKey, "key-for-remembered-etype", where, "without a KDC error the key is for the remembered or configured etype", strings.Join(badA, "; "))
+}
+
+// contradictsValidation: a contradiction rule. On the way to instruction in, some boolean
+// conditions of fa must have a fixed truth value (every path to in takes that edge). Where such a
+// condition is "a module validator f(…) returned ok", f's own success in turn fixes the truth of
+// the conditions inside f (rendered with the call's arguments). The same term required true by
+// one and false by the other means the instruction can never be reached.
+func contradictsValidation(fa *FuncAn, in ssa.Instruction) string {
+	type need struct {
+		pol  bool
+		from string
+	}
+	needs := map[string]need{}
+	var opened []*ssa.Call
+	for _, cd := range fa.Conds {
+		if cd.Kind != "bool" {
+			continue
+		}
+		hold := Edge{cd.If.Block(), cd.HoldsSucc}
+		other := Edge{cd.If.Block(), 1 - cd.HoldsSucc}
+		switch {
+		case fa.PathToInstrAvoiding([]Edge{hold}, in) == nil:
+			needs[cd.L] = need{true, fa.W.Pos(InstrPos(cd.If))}
+			if ex, ok := stripNot(cd.If.Cond).(*ssa.Extract); ok && ex.Index == 0 {
+				if call, ok := ex.Tuple.(*ssa.Call); ok {
+					opened = append(opened, call)
+				}
+			}
+		case fa.PathToInstrAvoiding([]Edge{other}, in) == nil:
+			needs[cd.L] = need{false, fa.W.Pos(InstrPos(cd.If))}
+		}
+	}
+	for _, call := range opened {
+		g := call.Call.StaticCallee()
+		if g == nil || len(g.Blocks) == 0 || g.Pkg == nil || !inModule(g.Pkg.Pkg.Path()) || g.Signature.Results().Len() != 2 {
+			continue
+		}
+		sub := NewFuncAnCtx(fa.W, g, fa.CallArgs(call))
+		exits := sub.SuccessExits(BoolErrSuccess(0, 1))
+		if len(exits) == 0 {
+			continue
+		}
+		for _, sd := range sub.Conds {
+			if sd.Kind != "bool" {
+				continue
+			}
+			hold := Edge{sd.If.Block(), sd.HoldsSucc}
+			other := Edge{sd.If.Block(), 1 - sd.HoldsSucc}
+			var pol, fixed bool
+			switch {
+			case sub.PathAvoiding([]Edge{hold}, exits) == nil:
+				pol, fixed = true, true
+			case sub.PathAvoiding([]Edge{other}, exits) == nil:
+				pol, fixed = false, true
+			}
+			if !fixed {
+				continue
+			}
+			if n, ok := needs[sd.L]; ok && n.pol != pol {
+				return fmt.Sprintf("unreachable: %s accepts a reply only when %s is %v (%s), the step is taken only when it is %v (%s)",
+					FuncKey(g), trunc(sd.L, 140), pol, fa.W.Pos(InstrPos(sd.If)), n.pol, n.from)
+			}
+		}
+	}
+	return ""
 }
